@@ -7,7 +7,8 @@
 package sipsp
 
 //@ func skipCRLF(buf, offs) (n, crl, err)
-//@   law[C03] EXT(buf)
+//@   law[C02] RES(buf, offs)
+//@   law[C03,C02] EXT(buf)
 //@   requires  bufOK(buf) && 0 <= offs && offs <= len(buf)
 //@   ensures   err == ErrHdrOk ==> (crl == 1 || crl == 2) && n == offs+crl && n <= len(buf)
 //@   ensures   err != ErrHdrOk ==> n == offs && crl == 0
@@ -18,15 +19,21 @@ package sipsp
 //@   ensures   err == ErrHdrOk ==> (crl == 2 <==> (buf[offs] == '\r' && buf[offs+1] == '\n'))
 
 //@ func skipLWS(buf, offs, flags) (n, crl, err)
-//@   law[C03] EXT(buf) when flags&POptInputEndF == 0
+//@   law[C02] RES(buf, offs) when flags&POptInputEndF == 0
+//@   law[C03,C02] EXT(buf) when flags&POptInputEndF == 0
 //@   requires  bufOK(buf) && 0 <= offs && offs <= len(buf)
 //@   loop 0 "for ; i < len(buf); i++"
 //@     invariant offs <= i && i <= len(buf)
 //@     invariant forall(k, offs, i, isLWSc(buf[k]))
+//@     invariant forall(k, offs, i, lwsAt(buf, k))
+//@     invariant i == offs || isWS(buf[i-1])
 //@     decreases len(buf) - i
 //@   ensures   offs <= n && n <= len(buf)
 //@   ensures   err == ErrHdrOk || err == ErrHdrEOH || err == ErrHdrMoreBytes
+//@   ensures   err == ErrHdrOk || err == ErrHdrMoreBytes ==> n == offs || isWS(buf[n-1])
 //@   ensures   forall(k, offs, n, isLWSc(buf[k]))
+//@   ensures   !(err == ErrHdrEOH && n == len(buf)) ==> forall(k, offs, n, lwsAt(buf, k))
+//@   ensures   err == ErrHdrEOH && n < len(buf) ==> (crl == 2 <==> (buf[n] == '\r' && n+1 < len(buf) && buf[n+1] == '\n'))
 //@   ensures   err == ErrHdrOk ==> n < len(buf) && !isLWSc(buf[n]) && crl == 0
 //@   ensures   err == ErrHdrEOH ==> (n < len(buf) && isCRLF(buf[n]) && (crl == 1 || crl == 2) && n+crl <= len(buf) &&
 //@                 (flags&POptInputEndF == 0 ==> n+crl < len(buf) && !isWS(buf[n+crl]))) ||
@@ -34,7 +41,8 @@ package sipsp
 //@   ensures   err == ErrHdrMoreBytes ==> crl == 0 && (n == len(buf) || (isCRLF(buf[n]) && n+2 >= len(buf)))
 
 //@ func skipWS(buf, offs) (r)
-//@   law[C03] EXTSCAN(buf)
+//@   law[C02] RESSCAN(buf, offs)
+//@   law[C03,C02] EXTSCAN(buf)
 //@   requires  bufOK(buf) && 0 <= offs && offs <= len(buf)
 //@   loop 0 "for ; offs < len(buf) && (buf[offs] == ' ' || buf[offs] == '\t'); offs++"
 //@     invariant offs0 <= offs && offs <= len(buf)
@@ -45,7 +53,8 @@ package sipsp
 //@   ensures   r == len(buf) || !isWS(buf[r])
 
 //@ func skipToken(buf, offs) (r)
-//@   law[C03] EXTSCAN(buf)
+//@   law[C02] RESSCAN(buf, offs)
+//@   law[C03,C02] EXTSCAN(buf)
 //@   requires  bufOK(buf) && 0 <= offs && offs <= len(buf)
 //@   loop 0 "for ; offs < len(buf) && buf[offs] != ' ' && buf[offs] != '\t' && buf[offs] != '\r' && buf[offs] != '\n'; offs++"
 //@     invariant offs0 <= offs && offs <= len(buf)
@@ -56,7 +65,8 @@ package sipsp
 //@   ensures   r == len(buf) || isLWSc(buf[r])
 
 //@ func skipTokenDelim(buf, offs, delim) (r)
-//@   law[C03] EXTSCAN(buf)
+//@   law[C02] RESSCAN(buf, offs)
+//@   law[C03,C02] EXTSCAN(buf)
 //@   requires  bufOK(buf) && 0 <= offs && offs <= len(buf)
 //@   loop 0 "for ; offs < len(buf) && buf[offs] != ' ' && buf[offs] != '\t' && buf[offs] != '\r' && buf[offs] != '\n' && buf[offs] != delim; offs++"
 //@     invariant offs0 <= offs && offs <= len(buf)
@@ -67,7 +77,8 @@ package sipsp
 //@   ensures   r == len(buf) || isLWSc(buf[r]) || buf[r] == delim
 
 //@ func skipLine(buf, offs) (n, crl, err)
-//@   law[C03] EXT(buf)
+//@   law[C02] RES(buf, offs)
+//@   law[C03,C02] EXT(buf)
 //@   requires  bufOK(buf) && 0 <= offs && offs <= len(buf)
 //@   loop 0 "for ; offs < len(buf) && buf[offs] != '\n' && buf[offs] != '\r'; offs++"
 //@     invariant offs0 <= offs && offs <= len(buf)
@@ -80,11 +91,12 @@ package sipsp
 //@   ensures   err == ErrHdrMoreBytes ==> crl == 0 && n+1 >= len(buf) && forall(k, offs, n, !isCRLF(buf[k]))
 
 //@ func ParseCSeqVal(buf, offs, pcs) (n, err)
-//@   law[C03] EXT(buf)
+//@   law[C02] RES(buf, offs)
+//@   law[C03,C02] EXT(buf)
 //@   requires  bufOK(buf) && 0 <= offs && offs <= len(buf) && pcs != nil && csOK(pcs, offs)
 //@   modifies  *pcs
 //@   loop 0 "for i < len(buf)"
-//@     invariant offs <= i && i <= len(buf) && csOK(pcs, i)
+//@     invariant offs <= i && i <= len(buf) && csOK(pcs, i) && pcs.state != csFIN
 //@     invariant[C10] csNum(pcs, buf, i)
 //@     decreases len(buf) - i
 //@   requires[C10] csNum(pcs, buf, offs)
@@ -96,11 +108,12 @@ package sipsp
 //@   ensures[C10] "cseq-suspended": err == ErrHdrMoreBytes ==> csNum(pcs, buf, n)
 
 //@ func ParseUIntVal(buf, offs, pcl) (n, err)
-//@   law[C03] EXT(buf)
+//@   law[C02] RES(buf, offs)
+//@   law[C03,C02] EXT(buf)
 //@   requires  bufOK(buf) && 0 <= offs && offs <= len(buf) && pcl != nil && clOK(pcl, offs)
 //@   modifies  *pcl
 //@   loop 0 "for i < len(buf)"
-//@     invariant offs <= i && i <= len(buf) && clOK(pcl, i)
+//@     invariant offs <= i && i <= len(buf) && clOK(pcl, i) && pcl.state != clFIN
 //@     invariant[C10] clNum(pcl, buf, i)
 //@     decreases len(buf) - i
 //@   requires[C10] clNum(pcl, buf, offs)
@@ -123,11 +136,12 @@ package sipsp
 //@   ensures[C10] "clen-suspended": err == ErrHdrMoreBytes ==> clNum(pcl, buf, n)
 
 //@ func ParseCallIDVal(buf, offs, pcid) (n, err)
-//@   law[C03] EXT(buf)
+//@   law[C02] RES(buf, offs)
+//@   law[C03,C02] EXT(buf)
 //@   requires  bufOK(buf) && 0 <= offs && offs <= len(buf) && pcid != nil && ciOK(pcid, offs)
 //@   modifies  *pcid
 //@   loop 0 "for i < len(buf)"
-//@     invariant offs <= i && i <= len(buf) && ciOK(pcid, i)
+//@     invariant offs <= i && i <= len(buf) && ciOK(pcid, i) && pcid.state != ciFIN
 //@     decreases len(buf) - i
 //@   ensures   0 <= n && n <= len(buf)
 //@   ensures   err == ErrHdrOk || err == ErrHdrMoreBytes ==> offs <= n && ciOK(pcid, n)
